@@ -263,6 +263,34 @@ func buildC01(tier string) *core.Plan {
 		}
 	}
 
+	// patterns that are themselves lists of maps (subset / superset / equal entries), against entries holding lists of maps
+	shapeEntries := []any{[]any{map[string]any{"a": 1, "b": 2}}, map[string]any{"p": []any{map[string]any{"a": 1, "b": 2}}}, map[string]any{"p": []any{map[string]any{"a": 1}}},
+		map[string]any{"p": []any{map[string]any{"a": 1}, map[string]any{"b": 2}}}, map[string]any{"a": 1, "b": 2}, []any{1, 2}, 1}
+	var shapeParents []any
+	for _, x := range shapeEntries {
+		shapeParents = append(shapeParents, []any{x})
+		for _, y := range shapeEntries {
+			shapeParents = append(shapeParents, []any{x, y})
+		}
+	}
+	shapePats := []any{
+		[]any{map[string]any{"a": 1}}, []any{map[string]any{"a": 1, "b": 2}}, []any{map[string]any{"a": 1, "b": 2, "c": 3}}, []any{map[string]any{"b": 2}, map[string]any{"a": 1}},
+		map[string]any{"p": []any{map[string]any{"a": 1}}}, map[string]any{"p": []any{map[string]any{"a": 1, "b": 2}}}, map[string]any{"p": []any{map[string]any{"a": 1, "b": 2, "c": 3}}},
+		map[string]any{"p": []any{map[string]any{"b": 2}}}, map[string]any{"p": []any{}}, []any{}, []any{1}, []any{2, 1}, []any{1, 1, 3},
+		map[string]any{"p": []any{map[string]any{"a": 1}}, "$invert": true}, map[string]any{"a": 1}, map[string]any{"a": 1, "b": 2, "c": 3},
+	}
+	var shapeEdits []any
+	for _, pt := range shapePats {
+		shapeEdits = append(shapeEdits, map[string]any{"$delete": pt}, map[string]any{"$match": pt, "z": 9}, map[string]any{"$match": pt, "$value": 7})
+	}
+	nse := int64(len(shapeEdits))
+	shapeSpace := core.Space{Name: "list-of-map-patterns", N: int64(len(shapeParents)) * nse,
+		Desc: func(i int64) any { return map[string]any{"parent": shapeParents[i/nse], "child": []any{shapeEdits[i%nse]}} },
+		Run: func(c *core.Ctx, i int64) {
+			c01Pair(c, "refMerge-list", shapeParents[i/nse], []any{shapeEdits[i%nse]})
+			c01Pair(c, "refMerge-list", map[string]any{"l": shapeParents[i/nse]}, map[string]any{"l": []any{shapeEdits[i%nse]}})
+		}}
+
 	// chains: parent + up to chainDepth further layers, each listing all earlier layers as parents
 	chainP := gen.Trees(c01ParentA, chainParents)
 	chainC := gen.Trees(c01ChildA, 2)
@@ -326,7 +354,7 @@ func buildC01(tier string) *core.Plan {
 		}}
 
 	return &core.Plan{
-		Spaces: []core.Space{product, listSpace, chain, files},
+		Spaces: []core.Space{product, listSpace, shapeSpace, chain, files},
 		Rule: "all (parent, child) pairs of trees up to the node bounds over the directive alphabet; all list parents of <=3 entries x all child lists of <=2 directive entries; " +
 			"all chains of up to depth further layers; every case is distinct by construction. non-trivial = the model rejects, or the model accepts and the merged output was compared",
 		Assumptions: []string{"reference semantics ref.Merge/ref.Match/ref.Stream/ref.Final (DESIGN Appendix A) is the oracle",
